@@ -1,6 +1,6 @@
 #!/usr/bin/env python3
 """Self-made sanity mutants (not the independent seeded changes under /verif/seeded).
-usage: tools/mutants.py [mutant-id ...]   -- applies each to /repo, runs the expected checks, reverts."""
+usage: tools/mutants.py [mutant-id ...]   -- evaluates each off-tree through tools/seeds.py (scratch worktree; /repo untouched)."""
 import subprocess, sys, os, json
 REPO = '/repo'
 M = []
@@ -116,34 +116,35 @@ mut('m11z-zero-test-against-one', ['C11'], 'src/key_exchange/group/ristretto255.
 def run(cmd, **kw):
     return subprocess.run(cmd, shell=True, capture_output=True, text=True, **kw)
 
+WT = '/tmp/mutants-wt'
+OUT = '/tmp/mutants'
+
 def main():
+    """each mutant becomes a patch made in a scratch worktree of /repo HEAD; tools/seeds.py evaluates it off-tree (/repo is not touched)"""
     sel = sys.argv[1:]
-    assert run('git -C /repo status --porcelain').stdout.strip() == '', 'repo not clean'
-    results = []
-    for mid, props, file, old, new in M:
-        if sel and not any(mid.startswith(s) for s in sel):
-            continue
-        p = os.path.join(REPO, file)
-        src = open(p).read()
-        if old not in src:
-            print(mid, 'PATTERN-NOT-FOUND'); continue
-        try:
+    run('git -C /repo worktree remove --force %s' % WT)
+    r = run('git -C /repo worktree add --detach %s HEAD' % WT)
+    assert r.returncode == 0, r.stderr
+    try:
+        for mid, props, file, old, new in M:
+            if sel and not any(mid.startswith(s) for s in sel):
+                continue
+            p = os.path.join(WT, file)
+            src = open(p).read()
+            if old not in src:
+                print(mid, 'PATTERN-NOT-FOUND'); continue
+            d = os.path.join(OUT, mid)
+            os.makedirs(d, exist_ok=True)
             open(p, 'w').write(src.replace(old, new, 1))
-            row = []
-            for pr in props:
-                if not os.path.exists('/verif/engine/py/rules/%s.py' % pr.lower()):
-                    row.append('%s:n/a' % pr); continue
-                r = run('cd /verif && ./check %s' % pr)
-                tag = {0: 'MISSED', 1: 'caught', 2: 'ERR'}.get(r.returncode, '?')
-                row.append('%s:%s' % (pr, tag))
-                if r.returncode == 2:
-                    print(r.stderr[-1500:])
-                if os.environ.get('MUT_VERBOSE'):
-                    print(r.stdout[-3000:])
-            print(mid, ' '.join(row), flush=True)
-        finally:
+            diff = run('git -C %s diff -- src' % WT).stdout
             open(p, 'w').write(src)
-    run('git -C /repo checkout -- .')
+            open(os.path.join(d, 'patch.diff'), 'w').write(diff)
+            env = dict(os.environ, SEED_REPO='/tmp/mutants-repo', SEED_WORK='/tmp/mutants-work')
+            r = subprocess.run('python3 /verif/tools/seeds.py %s --props=%s' % (d, ','.join(props)), shell=True, capture_output=True, text=True, env=env)
+            row = json.load(open(os.path.join(d, 'checks.json'))) if os.path.exists(os.path.join(d, 'checks.json')) else {}
+            print(mid, ' '.join('%s:%s' % (pr, {'CAUGHT': 'caught', '-': 'MISSED'}.get(row.get(pr), row.get(pr))) for pr in props), flush=True)
+    finally:
+        run('git -C /repo worktree remove --force %s' % WT)
 
 if __name__ == '__main__':
     main()
